@@ -102,6 +102,16 @@ func ZZ_C01_publicExits() {
 		if err := hd.Store().Put(context.Background(), next); err != nil {
 			panic(err)
 		}
+		if zz.Bool("and_the_round_after_it_right_away") {
+			// a catch-up / sync burst: two beacons are stored back to back while the request waits
+			after := &common.Beacon{Round: 9, Signature: zzfake.SignBeacon(sch, ep, 9, next.Signature)}
+			if chained {
+				after.PreviousSig = next.Signature
+			}
+			if err := hd.Store().Put(context.Background(), after); err != nil {
+				panic(err)
+			}
+		}
 		zz.Quiesce()
 	}
 	if !done {
